@@ -154,6 +154,11 @@ def concrete_steps_to_trace(steps):
     out = []
     pre = EMPTY
     for st in steps:
+        if "err" in st["obs"]:
+            # the public enumerations failed after this request: the trace ends before it
+            abort = {"step": len(out) + 1, "err": st["obs"]["err"],
+                     "op": st["op"] if st["op"] == "Init" else st["op"]["op"]}
+            return out, abort
         post = decode_state(st["rawT"], st["rawL"])
         op = st["op"]
         if op == "Init" or (isinstance(op, dict) and op["op"] == "Clear"):
@@ -174,7 +179,7 @@ def concrete_steps_to_trace(steps):
                         "pages": res["pages"], "created": res["created"]})
         out.append(rec)
         pre = post
-    return out
+    return out, None
 
 
 def conv_rules(rules):
